@@ -1,6 +1,131 @@
-(* C37  The address manager stays internally consistent and bounded.  (theorems being added) *)
-From BV Require Import lib.Ints gen.Params_gen model.AddrMan model.AddrManInst.
+(* C37  The address manager stays internally consistent and bounded.
+
+   Model: coq/model/AddrMan.v, an executable transcription of AddrManImpl (src/addrman.cpp) whose state is the C++ data members and whose
+   operations take the clock, the insecure_rand draws and the unordered_map iteration order as explicit arguments.  The keyed hashes
+   (GetTriedBucket / GetNewBucket / GetBucketPosition) and the CNetAddr predicates are universally quantified functions; the only premise
+   about them ([hash_ranges]) is that their values lie inside the table dimensions (they end in "% ADDRMAN_*_BUCKET_COUNT").
+   The constants are those of the compiled tree ([real_cfg], gen/Params_gen.v).
+
+   [reachable s]: s is obtained from the empty address manager by any finite sequence of Add (one or many addresses), Good, Attempt,
+   Connected, SetServices, ResolveCollisions, SelectTriedCollision, GetAddr with arguments satisfying [op_ok] (positive clock values,
+   address timestamps below 2^32, draws in the range asked of randrange, nIdCount below 2^62). *)
+From BV Require Import lib.Ints gen.Params_gen model.AddrMan model.AddrManInst proofs.AddrManMaps proofs.AddrManInv proofs.AddrManOps
+  proofs.AddrManSteps proofs.AddrManMain proofs.AddrManReal.
 Local Open Scope Z_scope.
-Theorem C37_placeholder_init_state_empty : s_info init_state = [].
-Proof. reflexivity. Qed.
-Print Assumptions C37_placeholder_init_state_empty.
+
+(* In every reachable state the transcription of AddrManImpl::CheckAddrman() (all of its 21 error conditions) returns 0. *)
+Theorem C37_consistency_check_passes_in_every_reachable_state :
+  forall tried_bucket new_bucket bucket_pos routable valid network netclass addr_of,
+  hash_ranges tried_bucket new_bucket bucket_pos ->
+  forall s, reachable tried_bucket new_bucket bucket_pos routable valid network netclass addr_of s -> s_idcount s <= IDLIM ->
+  check_addrman real_cfg tried_bucket bucket_pos network s = 0.
+Proof. exact real_check. Qed.
+Print Assumptions C37_consistency_check_passes_in_every_reachable_state.
+
+(* No assert / Assume of the C++ fires and no operator[] creates a garbage entry: every operation on a reachable state completes
+   (the model turns each such event into a [Fail] outcome). *)
+Theorem C37_no_assertion_fires_on_any_operation_sequence :
+  forall tried_bucket new_bucket bucket_pos routable valid network netclass addr_of,
+  hash_ranges tried_bucket new_bucket bucket_pos ->
+  forall s o, reachable tried_bucket new_bucket bucket_pos routable valid network netclass addr_of s -> s_idcount s < IDLIM -> op_ok s o ->
+  exists s', step tried_bucket new_bucket bucket_pos routable valid network netclass addr_of s o = Ok s'.
+Proof. exact real_no_assert. Qed.
+Print Assumptions C37_no_assertion_fires_on_any_operation_sequence.
+
+(* Sizes and slots: nNew and nTried are bounded by the number of occupied slots, which is bounded by the table dimensions; vRandom has
+   nNew + nTried elements; at most ADDRMAN_SET_TRIED_COLLISION_SIZE collisions are pending; a tried address sits in exactly one tried slot
+   (its hash slot) and in no new slot; a new address sits in between 1 and ADDRMAN_NEW_BUCKETS_PER_ADDRESS new slots and in no tried slot. *)
+Theorem C37_table_sizes_and_slots_per_address_are_bounded :
+  forall tried_bucket new_bucket bucket_pos routable valid network netclass addr_of,
+  hash_ranges tried_bucket new_bucket bucket_pos ->
+  forall s, reachable tried_bucket new_bucket bucket_pos routable valid network netclass addr_of s ->
+    s_nnew s <= zlen (s_new s) /\ zlen (s_new s) <= ADDRMAN_NEW_BUCKET_COUNT_P * ADDRMAN_BUCKET_SIZE_P /\
+    s_ntried s <= zlen (s_tried s) /\ zlen (s_tried s) <= ADDRMAN_TRIED_BUCKET_COUNT_P * ADDRMAN_BUCKET_SIZE_P /\
+    zlen (s_random s) = s_nnew s + s_ntried s /\ zlen (s_coll s) <= ADDRMAN_SET_TRIED_COLLISION_SIZE_P /\
+    (forall id a, zfind id (s_info s) = Some a ->
+       if a_tried a then refs id (s_new s) = 0 /\ (forall sl, sfind sl (s_tried s) = Some id <-> sl = tslot tried_bucket bucket_pos (a_key a))
+       else 1 <= refs id (s_new s) <= ADDRMAN_NEW_BUCKETS_PER_ADDRESS_P /\ (forall sl, sfind sl (s_tried s) <> Some id)).
+Proof. exact real_bounds. Qed.
+Print Assumptions C37_table_sizes_and_slots_per_address_are_bounded.
+
+(* The full invariant (maps, vRandom positions, table slots, reference counts, counters per network, pending collisions)
+   is preserved by every operation: the induction step behind the three theorems above. *)
+Theorem C37_every_operation_preserves_the_invariant :
+  forall tried_bucket new_bucket bucket_pos routable valid network netclass addr_of,
+  hash_ranges tried_bucket new_bucket bucket_pos ->
+  forall s o, full_inv tried_bucket bucket_pos routable network s -> s_idcount s < IDLIM -> op_ok s o ->
+  exists s', step tried_bucket new_bucket bucket_pos routable valid network netclass addr_of s o = Ok s' /\
+             full_inv tried_bucket bucket_pos routable network s' /\ s_idcount s <= s_idcount s'.
+Proof. exact real_step_ok. Qed.
+Print Assumptions C37_every_operation_preserves_the_invariant.
+
+(* Good(addr) that returns true moves addr from new to tried (statistics updated, source/nTime/services kept); every other address keeps
+   its entry and statistics, except: the previous occupant of the tried slot goes back to new with one reference, and the address that
+   held - with its last reference - the new slot this occupant returns to is dropped.  Nothing appears that was not there. *)
+Theorem C37_good_moves_the_entry_to_tried_and_loses_nothing_else :
+  forall tried_bucket new_bucket bucket_pos routable valid network netclass addr_of,
+  hash_ranges tried_bucket new_bucket bucket_pos ->
+  forall s k time s',
+    reachable tried_bucket new_bucket bucket_pos routable valid network netclass addr_of s -> s_idcount s < IDLIM -> 0 < time ->
+    good real_cfg tried_bucket new_bucket bucket_pos network s k true time = Ok (s', true) ->
+    (exists id a a', find_addr s k = Some (id, a) /\ a_tried a = false /\ find_addr s' k = Some (id, a') /\ a_tried a' = true /\
+                     a_last_success a' = time /\ a_attempts a' = 0 /\ a_src a' = a_src a /\ a_time a' = a_time a /\ a_services a' = a_services a /\
+                     sfind (tslot tried_bucket bucket_pos k) (s_tried s') = Some id) /\
+    (forall k0 id0 a0, k0 <> k -> find_addr s k0 = Some (id0, a0) ->
+       (exists a0', find_addr s' k0 = Some (id0, a0') /\ same_stats a0 a0' /\
+                    (sfind (tslot tried_bucket bucket_pos k) (s_tried s) <> Some id0 -> a_tried a0' = a_tried a0 /\ a_ref a0' <= a_ref a0) /\
+                    (sfind (tslot tried_bucket bucket_pos k) (s_tried s) = Some id0 -> a_tried a0 = true /\ a_tried a0' = false /\ a_ref a0' = 1))
+       \/ (find_addr s' k0 = None /\ a_tried a0 = false /\
+           exists idev old, sfind (tslot tried_bucket bucket_pos k) (s_tried s) = Some idev /\ zfind idev (s_info s) = Some old /\ a_tried old = true /\
+                            sfind (nslot new_bucket bucket_pos (a_key old) (a_src old)) (s_new s) = Some id0)) /\
+    (forall k0, find_addr s k0 = None -> find_addr s' k0 = None).
+Proof. intros tb nb bp r v n nc ao HR s k time s'. exact (real_good_effect tb nb bp r v n nc ao HR s k time s'). Qed.
+Print Assumptions C37_good_moves_the_entry_to_tried_and_loses_nothing_else.
+
+(* Non-vacuity: with toy hash functions under which all addresses collide in one tried slot, a run that adds two addresses, makes
+   both Good (the second one becomes a pending collision) and resolves the collision after the test window is reachable, and ends
+   with one tried and one new address. *)
+Definition toy_tb (k : Z) : Z := 0.
+Definition toy_nb (k s : Z) : Z := (k + s) mod 1024.
+Definition toy_bp (f : bool) (b k : Z) : Z := if f then k mod 64 else 0.
+Definition toy_true (k : Z) : bool := true.
+Definition toy_net (k : Z) : Z := 1.
+Lemma toy_ranges : hash_ranges toy_tb toy_nb toy_bp.
+Proof. unfold hash_ranges, toy_tb, toy_nb, toy_bp, ADDRMAN_NEW_BUCKET_COUNT_P, ADDRMAN_TRIED_BUCKET_COUNT_P, ADDRMAN_BUCKET_SIZE_P.
+  split; [|split]; intros; try destruct f; lia. Qed.
+Definition toy_step (s : st) (o : op) : st :=
+  match step toy_tb toy_nb toy_bp toy_true toy_true toy_net toy_net toy_net s o with Ok s' => s' | Fail _ => s end.
+Definition toy_ops : list op :=
+  [OAdd 5 1700000000 1 0 0 1700000100 0; OGood 5 1700000200; OAdd 6 1700000000 1 0 0 1700000300 0; OGood 6 1700000400;
+   OResolve 1700020000].
+Definition toy_final : st := Eval vm_compute in fold_left toy_step toy_ops init_state.
+Example C37_nonvacuous :
+  reachable toy_tb toy_nb toy_bp toy_true toy_true toy_net toy_net toy_net toy_final /\
+  s_ntried toy_final = 1 /\ s_nnew toy_final = 1 /\ s_idcount toy_final = 2 /\
+  (exists a, find_addr toy_final 6 = Some (1, a) /\ a_tried a = true) /\ (exists a, find_addr toy_final 5 = Some (0, a) /\ a_tried a = false).
+Proof.
+  split; [|vm_compute; repeat split; eauto].
+  set (s1 := toy_step init_state (OAdd 5 1700000000 1 0 0 1700000100 0)).
+  set (s2 := toy_step s1 (OGood 5 1700000200)).
+  set (s3 := toy_step s2 (OAdd 6 1700000000 1 0 0 1700000300 0)).
+  set (s4 := toy_step s3 (OGood 6 1700000400)).
+  change toy_final with (toy_step s4 (OResolve 1700020000)) .
+  assert (R1 : reachable toy_tb toy_nb toy_bp toy_true toy_true toy_net toy_net toy_net s1).
+  { apply reach_step with (s := init_state) (o := OAdd 5 1700000000 1 0 0 1700000100 0);
+      [apply reach_init | reflexivity | simpl; unfold add_args_ok; split; [reflexivity | lia] | vm_compute; reflexivity]. }
+  assert (R2 : reachable toy_tb toy_nb toy_bp toy_true toy_true toy_net toy_net toy_net s2).
+  { apply reach_step with (s := s1) (o := OGood 5 1700000200); [exact R1 | reflexivity | simpl; lia | vm_compute; reflexivity]. }
+  assert (R3 : reachable toy_tb toy_nb toy_bp toy_true toy_true toy_net toy_net toy_net s3).
+  { apply reach_step with (s := s2) (o := OAdd 6 1700000000 1 0 0 1700000300 0);
+      [exact R2 | reflexivity | simpl; unfold add_args_ok; split; [reflexivity | lia] | vm_compute; reflexivity]. }
+  assert (R4 : reachable toy_tb toy_nb toy_bp toy_true toy_true toy_net toy_net toy_net s4).
+  { apply reach_step with (s := s3) (o := OGood 6 1700000400); [exact R3 | reflexivity | simpl; lia | vm_compute; reflexivity]. }
+  apply reach_step with (s := s4) (o := OResolve 1700020000); [exact R4 | reflexivity | simpl; lia | vm_compute; reflexivity].
+Qed.
+
+(* Reload.  Full statement (not yet a theorem; carried by the correspondence, which reloads the real AddrMan and compares every
+   address, its statistics and its table placement before and after):
+     forall s order, reachable s -> Permutation order (map fst (s_info s)) ->
+       exists f s', serialize real_cfg s order = Ok f /\ unserialize real_cfg tb nb bp valid network f true = Ok s' /\
+                    s_nnew s' = s_nnew s /\ s_ntried s' = s_ntried s /\
+                    (forall k, option_map entry_of (find_addr s' k) = option_map entry_of (find_addr s k)) /\ (tables agree by address). *)
